@@ -95,10 +95,27 @@ def make_case(rng, i):
             "cli": True, "enzo": i % 2 == 0}
 
 
+def make_isotope_case(rng, i):
+    """Digit-leading isotope symbols (user element list with 13C / 15N) as ice on two grain populations: '#13CO' (group 0) and '#113CO'
+    (group 1) are two species with two identifiers."""
+    iso, mol = rng.choice([("13C", "13CO"), ("15N", "15N2"), ("13C", "H13CN")])
+    plain = {"13CO": "CO", "15N2": "N2", "H13CN": "HCN"}[mol]
+    names = ["H", "H+", "e-", mol, plain, "#" + mol, "#1" + mol, "#" + plain, "#1" + plain, "GRAIN0", "GRAIN-", "GRAIN1", "GRAIN1-"]
+    pairs = [([mol], ["#" + mol]), ([mol], ["#1" + mol]), (["#1" + mol], [mol]), ([plain], ["#" + plain]), ([plain], ["#1" + plain]), (["#1" + plain], [plain]),
+             (["#" + mol], [mol]), (["H+", "GRAIN-"], ["H", "GRAIN0"]), (["H+", "GRAIN1-"], ["H", "GRAIN1"]), (["e-", "GRAIN0"], ["GRAIN-"]), (["e-", "GRAIN1"], ["GRAIN1-"])]
+    rng.shuffle(pairs)
+    reacs = [{"reactants": list(a), "products": list(b), "idx": j + 1, "alpha": round(rng.uniform(0.5, 2), 3), "pseudo": None} for j, (a, b) in enumerate(pairs)]
+    return {"names": names, "reactions": reacs, "required": [], "upper": False, "features": ["isotope_two_groups", "ice", "grain_groups"], "two_spellings": False,
+            "required_late": False, "cli": True, "enzo": i % 2 == 0, "isotopes": [iso]}
+
+
 def gen_cases(tier):
     rng = common.rng_for(ID)
     n = 32 if tier == "quick" else 300
-    return [make_case(random.Random(rng.getrandbits(64)), i) for i in range(n)]
+    cases = [make_case(random.Random(rng.getrandbits(64)), i) for i in range(n)]
+    for i in range(3 if tier == "quick" else 30):
+        cases.append(make_isotope_case(random.Random(rng.getrandbits(64)), i))
+    return cases
 
 
 UPPER_EL = ["E", "H", "D", "HE", "C", "N", "O", "MG", "SI", "S", "CL"]
@@ -127,9 +144,19 @@ def run_case(case, ctx):
         Species._replacement = dict(UPPER_RP)          # as `naunet render` installs them, before any species is created
         Species.set_known_elements(list(UPPER_EL))
         Species.set_known_pseudoelements(list(UPPER_PS))
+    if case.get("isotopes"):
+        el = list(chem.DEFAULT_ELEMENTS) + list(case["isotopes"])
+        ps = ["CR", "CRP", "XRAY", "Photon", "PHOTON", "CRPHOT", "o", "p", "m"]
+        kw = dict(elements=el, pseudo_elements=ps)
+        Species.set_known_elements(list(el))
+        Species.set_known_pseudoelements(list(ps))
     sample = {"names": case["names"], "features": case["features"], "cli": case["cli"], "enzo": case["enzo"]}
 
     def build():
+        if case.get("isotopes"):
+            # (after a Species.reset(): the user lists are installed before any species is created, as `naunet render` does)
+            Species.set_known_elements(list(chem.DEFAULT_ELEMENTS) + list(case["isotopes"]))
+            Species.set_known_pseudoelements(["CR", "CRP", "XRAY", "Photon", "PHOTON", "CRPHOT", "o", "p", "m"])
         rl = []
         for r in case["reactions"]:
             rl.append(Reaction(list(r["reactants"]), list(r["products"]), alpha=r["alpha"], reaction_type=RT.GAS_TWOBODY, idxfromfile=r["idx"]))
@@ -247,6 +274,9 @@ def run_case(case, ctx):
         (d / "net.naunet").write_text("\n".join(lines) + "\n")
         opts = {"network-files": "net.naunet", "file-formats": "naunet", "extra-species": ", ".join(case["required"]),
                 "binding": ",".join(f"{n}=1000.0" for n in case["names"] if n.startswith("#"))}
+        if case.get("isotopes"):
+            opts.update({"elements": ", ".join(list(chem.DEFAULT_ELEMENTS) + list(case["isotopes"])),
+                         "pseudo-elements": ", ".join(["CR", "CRP", "XRAY", "Photon", "PHOTON", "CRPHOT", "o", "p", "m"])})
         if case["upper"]:
             opts.update({"elements": ", ".join(UPPER_EL), "pseudo-elements": ", ".join(UPPER_PS), "element-replacement": ", ".join(f"{k}:{v}" for k, v in UPPER_RP.items())})
         try:
